@@ -35,7 +35,8 @@ namespace GeographicLib {
       s = hypot(x, y);
     real sig, m;
     sig = _earth.Direct(lat0, lon0, azi0, s, lat, lon, azi, m);
-    rk = !(sig <= eps_) ? m / s : 1;
+    // For s = 0, sig can be a tiny round-off value instead of 0; also test s
+    rk = !(sig <= eps_) && s > 0 ? m / s : 1;
   }
 
 } // namespace GeographicLib
